@@ -167,6 +167,14 @@ def run_index(acc: Acc, seed: int, idx: int, nsets: int, nq: int, only=None) -> 
         if r.rc != 0:
             acc.inconclusive.append(f"index {idx}: db create failed")
             return
+        if idx % 3 == 1:
+            from zmon.gen import history as hg
+
+            hg.evolve_files(root, rng)
+            if db.cli(root, "db", "reindex").rc != 0:
+                acc.inconclusive.append(f"index {idx}: db reindex after edits failed")
+                return
+            acc.count("incrementally_updated_indexes")
         dump = db.dump_index(root)
         uni = rf.Universe(dump.notes)
         all_z = {n["zid"] for n in dump.notes}
